@@ -180,10 +180,12 @@ impl Evolver {
                     Some("record") => {
                         let mut fields: Vec<J> = m.get("fields").and_then(|f| f.as_array()).cloned().unwrap_or_default();
                         let mut out: Vec<J> = vec![];
+                        let mut removed: Vec<String> = vec![];
                         for f in fields.drain(..) {
                             let mut f = f.as_object().unwrap().clone();
                             if self.hit(rng) && rng.chance(1, 2) {
                                 self.note("remove a field");
+                                removed.push(f["name"].as_str().unwrap_or("").to_string());
                                 continue;
                             }
                             let ft = self.evolve(rng, &f["type"].clone(), true);
@@ -206,6 +208,23 @@ impl Evolver {
                                 f.insert("name".into(), J::String(format!("renamed{}", self.counter)));
                             }
                             out.push(J::Object(f));
+                        }
+                        // a kept field gets an alias that names a writer field the reader dropped: fields are matched by
+                        // name first, so the alias must not capture the other field's data
+                        if !removed.is_empty() && !out.is_empty() && (self.hit(rng) || rng.chance(1, 4)) {
+                            let i = rng.below(out.len());
+                            let name = out[i]["name"].as_str().unwrap_or("").to_string();
+                            let target = rng.pick(&removed).clone();
+                            let taken = out.iter().any(|f| {
+                                f["name"].as_str() == Some(&target) || f.get("aliases").and_then(|a| a.as_array()).is_some_and(|a| a.iter().any(|x| x.as_str() == Some(&target)))
+                            });
+                            if !taken && !name.starts_with("renamed") && !name.starts_with("added") && !target.is_empty() {
+                                self.note("alias that names a dropped writer field");
+                                let f = out[i].as_object_mut().unwrap();
+                                let mut al: Vec<J> = f.get("aliases").and_then(|a| a.as_array()).cloned().unwrap_or_default();
+                                al.insert(0, J::String(target));
+                                f.insert("aliases".into(), J::Array(al));
+                            }
                         }
                         let mut adds = 0;
                         while self.hit(rng) && adds < 3 {
